@@ -89,8 +89,8 @@ CHECKS = {
              'targeted) is an invariant of the lowering for every program of StructFamily; the real parser\'s model of every '
              'enumerated program and of random deeper programs is converted by alpha and WellFormed is evaluated on it by TLC; '
              'the real validate_script must accept it and lint_script must report no label warning.',
-        note='Depth 2 family in the quick tier (12.7k programs incl. contexts), depth 3 in the thorough tier; random programs '
-             'to depth 6 / 8. Label names are classified as reserved by their __bareScript prefix in alpha.',
+        note='Depth 2 family in the quick tier (4.7k programs incl. contexts), depth 3 (innermost level: 7 representative constructs) in the thorough tier; random programs '
+             'to depth 6 / 7. Label names are classified as reserved by their __bareScript prefix in alpha.',
         ref='DESIGN.md 5 C07'),
     'C02': dict(
         technique='TLA+ two-layer spec of expression syntax (reference PrecTree vs the parser\'s ReorderStep fold) + TLC model '
